@@ -249,7 +249,7 @@ def main():
     if result:
         for k in result.get("known_findings_seen", []):
             lines.append("KNOWN-FINDING: property=%s %s" % (pid, k))
-        for v in result.get("violations", []):
+        for v in sorted(result.get("violations", []), key=lambda v: bool(v.get("no_failing_input_found"))):
             violations += 1
             if v.get("no_failing_input_found"):
                 lines.append("VIOLATION property=%s replay=%s no-failing-input-found" % (pid, v["replay"]))
